@@ -41,6 +41,16 @@ RanksPart(d) ==
            Emit([op |-> "quant.ranks", n |-> n, q |-> q, conf |-> Conf(ki, li), li |-> li])
      /\ Emit([op |-> "quant.index", n |-> n, q |-> q])
 
+\* the same rank arithmetic at populations far above the exhaustive range, on both sides of every size that is special to
+\* some part of the crate (1024, 4096, 65 536, 100 000, 2^24): the ranks are the Wilson ranks WHATEVER the population
+LargeNs == <<99, 1000, 1023, 1025, 4097, 65536, 99999, 100000, 100001, 250000, 1000003, 16777217>>
+LargeRanksPart(d) ==
+  \A i \in DOMAIN LargeNs : LET n == LargeNs[i] IN
+     \A q \in {[n |-> j, p |-> -5] : j \in {1, 3, 10, 16, 29, 31}}
+              \cup {[num |-> 2 * j + 1, den |-> 2 * n, ulp |-> 0] : j \in {n \div 10, (9 * n) \div 10}} :
+        \A ki \in 1..3, li \in LevSel :
+           Emit([op |-> "quant.ranks", n |-> n, q |-> q, conf |-> Conf(ki, li), li |-> li])
+
 \* multiset shapes of size m: keys 1..m with ties
 Shapes(m) == {[i \in 1..m |-> i], [i \in 1..m |-> (i + 1) \div 2], [i \in 1..m |-> IF i <= 2 THEN 1 ELSE i],
               [i \in 1..m |-> 3]}
@@ -102,6 +112,6 @@ BigPopPart(d) ==
 
 Next == /\ ~done
         /\ done' = TRUE
-        /\ CASE Part = "ranks" -> (RanksPart(done) /\ BigPopPart(done)) [] Part = "big" -> BigPopPart(done) [] Part = "perm" -> PermPart(done) [] Part = "shuffle" -> (ShufflePart(done) /\ IotaPart(done) /\ BigCapPart(done))
+        /\ CASE Part = "ranks" -> (RanksPart(done) /\ LargeRanksPart(done) /\ BigPopPart(done)) [] Part = "big" -> BigPopPart(done) [] Part = "perm" -> PermPart(done) [] Part = "shuffle" -> (ShufflePart(done) /\ IotaPart(done) /\ BigCapPart(done))
 Spec == Init /\ [][Next]_done
 =============================================================================
